@@ -37,6 +37,11 @@ func projectEndState(r *Runner) map[string]any {
 		}
 		conds := map[string]string{}
 		for t, c := range engine.Conditions(o) {
+			if strings.Contains(t, "/") && c.ObservedGeneration != engine.Generation(o) {
+				// a mapped condition copied for an earlier generation of the object and not refreshed since says nothing
+				// about its current generation: whether such a leftover exists is history, not end state
+				continue
+			}
 			conds[t] = c.Status
 		}
 		if conds["Archived"] == "True" {
